@@ -31,6 +31,12 @@ pub struct SymSpec {
     pub props: Vec<(bool, Pred)>,
     pub init_local: u8,
     pub init_shared: u8,
+    /// further initial states (process vectors, not necessarily sorted; some may be out of boundary)
+    #[serde(default)]
+    pub extra_inits: Vec<Vec<u8>>,
+    /// states on which this (permutation-invariant) predicate is false are outside the boundary
+    #[serde(default)]
+    pub boundary: Option<Pred>,
 }
 
 #[derive(Clone, Debug, PartialEq, Eq, Hash, PartialOrd, Ord)]
@@ -76,7 +82,17 @@ impl Model for SymModel {
     type State = PState;
     type Action = (u8, u8); // (process, move index)
     fn init_states(&self) -> Vec<PState> {
-        vec![PState { procs: vec![self.0.init_local; self.0.procs], shared: self.0.init_shared }]
+        let mut v = vec![PState { procs: vec![self.0.init_local; self.0.procs], shared: self.0.init_shared }];
+        for e in &self.0.extra_inits {
+            let s = PState { procs: e.clone(), shared: self.0.init_shared };
+            if !v.contains(&s) {
+                v.push(s);
+            }
+        }
+        v
+    }
+    fn within_boundary(&self, s: &PState) -> bool {
+        self.0.boundary.as_ref().map(|p| holds(p, s)).unwrap_or(true)
     }
     fn actions(&self, s: &PState, out: &mut Vec<(u8, u8)>) {
         for (i, l) in s.procs.iter().enumerate() {
@@ -129,7 +145,9 @@ pub fn gen_sym(seed: u64) -> SymScenario {
     props[keep] = (true, Pred::CountAtMost(0, procs as u8));
     let mut sched = super::gen::gen_sched(&mut rng, 2_000_000);
     sched.block_size = *rng.pick(&[1usize, 2, 5, 0]);
-    SymScenario { spec: SymSpec { procs, locals, shared, table, props, init_local: 0, init_shared: 0 }, threads: 1 + rng.usize_below(3), sched }
+    let extra_inits = if rng.chance(1, 2) { (0..rng.range(1, 2)).map(|_| (0..procs).map(|_| rng.below(locals as u64) as u8).collect()).collect() } else { vec![] };
+    let boundary = if rng.chance(1, 2) { Some(Pred::CountAtMost(rng.below(locals as u64) as u8, rng.range(0, procs as u64) as u8)) } else { None };
+    SymScenario { spec: SymSpec { procs, locals, shared, table, props, init_local: 0, init_shared: 0, extra_inits, boundary }, threads: 1 + rng.usize_below(3), sched }
 }
 
 struct DfsObs {
@@ -170,7 +188,7 @@ fn run_checker(sc: &SymScenario, symmetry: bool, seed_salt: u64, simulation: boo
             // re-execute in the original model
             let v = path.into_vec();
             let inits = model.init_states();
-            if !inits.contains(&v[0].0) {
+            if !inits.contains(&v[0].0) || !model.within_boundary(&v[0].0) {
                 bad = Some(format!("{}: path starts in {:?}", name, v[0].0));
             }
             for i in 0..v.len() - 1 {
@@ -215,7 +233,7 @@ pub fn execute(sc: &SymScenario) -> (Vec<Violation>, Counters, u64, u64, u64) {
     let model = SymModel(Arc::new(sc.spec.clone()));
     // reference reachability
     let mut reach: BTreeSet<PState> = BTreeSet::new();
-    let mut q: VecDeque<PState> = model.init_states().into();
+    let mut q: VecDeque<PState> = model.init_states().into_iter().filter(|s| model.within_boundary(s)).collect();
     for s in q.iter() {
         reach.insert(s.clone());
     }
@@ -224,7 +242,7 @@ pub fn execute(sc: &SymScenario) -> (Vec<Violation>, Counters, u64, u64, u64) {
         model.actions(&s, &mut acts);
         for a in acts {
             if let Some(n) = model.next_state(&s, a) {
-                if reach.insert(n.clone()) {
+                if model.within_boundary(&n) && reach.insert(n.clone()) {
                     q.push_back(n);
                 }
             }
@@ -272,6 +290,13 @@ pub fn execute(sc: &SymScenario) -> (Vec<Violation>, Counters, u64, u64, u64) {
                 let exists = if *always { reach.iter().any(|st| !holds(pred, st)) } else { reach.iter().any(|st| holds(pred, st)) };
                 if exists != s.discoveries.contains_key(QN[i]) {
                     v.push(Violation::new("C10", "verdict", format!("with symmetry {} ({:?}, always={}): witness exists = {}, reported = {}", QN[i], pred, always, exists, !exists)));
+                    let class = match (always, exists) {
+                        (true, true) => "missed-always:symmetry",
+                        (true, false) => "false-always:symmetry",
+                        (false, true) => "missed-sometimes:symmetry",
+                        (false, false) => "false-sometimes:symmetry",
+                    };
+                    v.push(Violation::new("C02", class, format!("DFS with symmetry, {} ({:?}): a witness among the reachable in-boundary states exists = {}, reported = {}", QN[i], pred, exists, !exists)));
                 }
             }
             if s.unique > p.unique || s.unique < orbits.len() {
@@ -308,15 +333,17 @@ pub fn execute(sc: &SymScenario) -> (Vec<Violation>, Counters, u64, u64, u64) {
     (v, c, sig, steps, clock)
 }
 
-pub fn run_case(seed: u64) -> (RunReport, Value) {
+pub fn run_case(focus: &str, seed: u64) -> (RunReport, Value) {
     let sc = gen_sym(seed);
-    let (v, c, sig, steps, clock) = execute(&sc);
+    let (mut v, c, sig, steps, clock) = execute(&sc);
+    v.retain(|x| x.property == focus);
     (RunReport { violations: v, counters: c, signature: sig, nontrivial: steps >= 40, sim_time_ns: clock, steps, case_hashes: vec![] }, serde_json::to_value(&sc).unwrap())
 }
 
-pub fn replay(scenario: &Value) -> Result<RunReport, String> {
+pub fn replay(focus: &str, scenario: &Value) -> Result<RunReport, String> {
     let sc: SymScenario = serde_json::from_value(scenario.clone()).map_err(|e| e.to_string())?;
-    let (v, c, sig, steps, clock) = execute(&sc);
+    let (mut v, c, sig, steps, clock) = execute(&sc);
+    v.retain(|x| x.property == focus);
     Ok(RunReport { violations: v, counters: c, signature: sig, nontrivial: true, sim_time_ns: clock, steps, case_hashes: vec![] })
 }
 
